@@ -281,6 +281,102 @@ Proof.
   intros Hp s Hs. specialize (Hp s Hs). unfold maybe. destruct (p s) as [[n r| | |] k]; cbn in Hp |- *; auto.
 Qed.
 
+(* what a successful Kleene loop says about the positions it went through *)
+Inductive many_ok (p : parser) : string -> list node -> string -> Prop :=
+| many_ok_nil s : many_ok p s [] s
+| many_ok_cons s x s1 xs r : fst (p s) = Ok x s1 -> many_ok p s1 xs r -> many_ok p s (x :: xs) r.
+
+Lemma kleene_loop_chain n (p : parser) s xs r : fst (kleene_loop n p s) = Ok xs r -> many_ok p s xs r.
+Proof.
+  revert s xs r; induction n as [|n IH]; intros s xs r H; [discriminate|].
+  rewrite kleene_loop_S in H.
+  destruct (p s) as [[x s1| | |] k] eqn:E; cbn [fst] in H; try discriminate.
+  - destruct (Nat.ltb (String.length s1) (String.length s)); cbn [fst] in H; [|discriminate].
+    destruct (kleene_loop n p s1) as [[xs' r'| | |] k'] eqn:E2; cbn [fst] in H; try discriminate.
+    inversion H; subst. econstructor; [now rewrite E|]. apply IH. now rewrite E2.
+  - inversion H; subst. constructor.
+Qed.
+
+Lemma kleene_chain cb (p : parser) s n r : fst (kleene cb p s) = Ok n r ->
+  exists xs, n = docb cb xs /\ many_ok p s xs r.
+Proof.
+  rewrite kleene_fst. destruct (fst (kleene_loop _ p s)) as [xs r'| | |] eqn:E; cbn; intro H; try discriminate.
+  inversion H; subst. exists xs. split; [reflexivity|]. now apply kleene_loop_chain in E.
+Qed.
+
+(* ---------- Many with a separator ---------- *)
+Lemma sep_loop_S n (p sep : parser) cur : sep_loop (S n) p sep cur =
+  match p cur with
+  | (Ok x r, k) =>
+      match sep r with
+      | (Ok _ r2, k2) =>
+          if Nat.ltb (String.length r2) (String.length cur) then
+            match sep_loop n p sep r2 with
+            | (Ok xs r', k') => (Ok (x :: xs) r', (k + k2 + k')%N)
+            | (Fail, k') => (Fail, (k + k2 + k')%N)
+            | (NoFuel, k') => (NoFuel, (k + k2 + k')%N)
+            | (Hang, k') => (Hang, (k + k2 + k')%N)
+            end
+          else (Hang, (k + k2)%N)
+      | (Fail, k2) => (Ok [x] r, (k + k2)%N)
+      | (NoFuel, k2) => (NoFuel, (k + k2)%N)
+      | (Hang, k2) => (Hang, (k + k2)%N)
+      end
+  | (Fail, k) => (Ok [] cur, k)
+  | (NoFuel, k) => (NoFuel, k)
+  | (Hang, k) => (Hang, k)
+  end.
+Proof. reflexivity. Qed.
+
+Lemma sep_loop_none n (p sep : parser) s : fst (p s) = Fail -> fst (sep_loop (S n) p sep s) = Ok [] s.
+Proof. intro H. rewrite sep_loop_S. destruct (p s) as [y k]. cbn in H. now subst y. Qed.
+
+Lemma sep_loop_last n (p sep : parser) s x r : fst (p s) = Ok x r -> fst (sep r) = Fail ->
+  fst (sep_loop (S n) p sep s) = Ok [x] r.
+Proof.
+  intros H H2. rewrite sep_loop_S. destruct (p s) as [y k]. cbn in H. subst y.
+  destruct (sep r) as [z k2]. cbn in H2. now subst z.
+Qed.
+
+Lemma sep_loop_more n (p sep : parser) s x r y r2 : fst (p s) = Ok x r -> fst (sep r) = Ok y r2 ->
+  String.length r2 < String.length s ->
+  fst (sep_loop (S n) p sep s) = lift (cons x) (fst (sep_loop n p sep r2)).
+Proof.
+  intros H H2 Hl. rewrite sep_loop_S. destruct (p s) as [u k]. cbn in H. subst u.
+  destruct (sep r) as [z k2]. cbn in H2. subst z. apply Nat.ltb_lt in Hl. rewrite Hl.
+  destruct (sep_loop n p sep r2) as [[xs r'| | |] k']; reflexivity.
+Qed.
+
+Lemma many_sep_fst cb (p sep : parser) s :
+  fst (many_sep cb p sep s) =
+  match fst (sep_loop (S (String.length s)) p sep s) with
+  | Ok [] _ => Fail
+  | Ok ns r => Ok (docb cb ns) r
+  | Fail => Fail
+  | NoFuel => NoFuel
+  | Hang => Hang
+  end.
+Proof. unfold many_sep. destruct (sep_loop _ p sep s) as [[[|x ns] r| | |] k]; reflexivity. Qed.
+
+Lemma sep_loop_good n (p sep : parser) L : goodS p L -> good sep L ->
+  forall s, String.length s <= L -> String.length s < n ->
+    match fst (sep_loop n p sep s) with Ok _ r => String.length r <= String.length s | _ => False end.
+Proof.
+  intros Hp Hsep. induction n as [|n IH]; intros s Hs Hn; [lia|]. rewrite sep_loop_S.
+  pose proof (Hp s Hs) as H. destruct (p s) as [[x s1| | |] k]; cbn [fst] in H |- *; try tauto; [|lia].
+  pose proof (Hsep s1 ltac:(lia)) as H2. destruct (sep s1) as [[y s2| | |] k2]; cbn [fst] in H2 |- *; try tauto; [|lia].
+  assert (Hlt : String.length s2 < String.length s) by lia. apply Nat.ltb_lt in Hlt. rewrite Hlt.
+  specialize (IH s2 ltac:(lia) ltac:(lia)).
+  destruct (sep_loop n p sep s2) as [[xs r| | |] k']; cbn [fst] in IH |- *; try tauto. lia.
+Qed.
+
+Lemma many_sep_good cb (p sep : parser) L : goodS p L -> good sep L -> good (many_sep cb p sep) L.
+Proof.
+  intros Hp Hsep s Hs. rewrite many_sep_fst.
+  pose proof (sep_loop_good (S (String.length s)) p sep L Hp Hsep s Hs ltac:(lia)) as H.
+  destruct (fst (sep_loop _ p sep s)) as [[|x ns] r| | |]; cbn; auto.
+Qed.
+
 (* ---------- step counts ---------- *)
 Local Open Scope N_scope.
 
